@@ -501,6 +501,27 @@ pub fn utf8(args: &[String]) {
                 rep.mismatch(json!({"what":"SharedString accepts a byte sequence iff Utf8.tla says it is well-formed: violated",
                     "classes":classes,"bytes":bytes,"spec":ok,"from_utf8":r.is_ok(),"std":std_ok}));
             }
+            // the same sequence inside a long ASCII text (well-formedness is unchanged by ASCII around it):
+            // every size class of the buffer, the sequence at the very end or followed by a few bytes
+            if k < 9 {
+                for pre in [7usize, 61, 64, 65, 127, 200, 1021, 4093] {
+                    for suf in [0usize, 1, 3, 8] {
+                        rep.checks += 1;
+                        let mut long: Vec<u8> = std::iter::repeat(b'a').take(pre).collect();
+                        long.extend_from_slice(&bytes);
+                        long.extend(std::iter::repeat(b'z').take(suf));
+                        let r = SharedString::from_utf8(SharedBytes::from_vec(long.clone()));
+                        let good = match &r {
+                            Ok(s) => ok && s.as_bytes() == &long[..],
+                            Err(_) => !ok,
+                        };
+                        if !good {
+                            rep.mismatch(json!({"what":"SharedString accepts a byte sequence iff Utf8.tla says it is well-formed: violated inside a long ASCII text",
+                                "classes":classes,"bytes":bytes,"ascii_before":pre,"ascii_after":suf,"spec":ok,"from_utf8":r.is_ok()}));
+                        }
+                    }
+                }
+            }
         }
     }
     rep.print();
